@@ -19,6 +19,15 @@ type GenOpts struct {
 	ManyGroups bool
 	// LeadSBurst puts a long burst of scalar loads (and a store of its value) first
 	LeadSBurst bool
+	// LateWave (with Comm): right before the first LDS exchange, wavefront 0 of every group runs a
+	// long loop, so it arrives at the barrier long after its siblings
+	LateWave bool
+	// WaveDep lets loops run longer in wavefront 0 of every work-group
+	WaveDep bool
+	// LeadLoads > 0 puts that many lazily consumed vector loads (and a store of the first) first
+	LeadLoads int
+	// TrailSLoad lets a program end with a scalar load that nothing waits for
+	TrailSLoad bool
 	// SBurst allows bursts of back-to-back scalar loads
 	SBurst bool
 	// SubDword allows flat_load_ubyte / sbyte / ushort
@@ -203,6 +212,17 @@ func GenProgram(t *rapid.T, o GenOpts) *Program {
 	if o.Exit {
 		kinds = append(kinds, "exit")
 	}
+	if o.LeadLoads > 0 && regsLeft() >= o.LeadLoads+2 {
+		// the program starts with LeadLoads vector loads in flight together; the first one is
+		// consumed first, i.e. after s_waitcnt vmcnt(LeadLoads-1)
+		first := nv
+		for j := 0; j < o.LeadLoads; j++ {
+			p.Ops = append(p.Ops, Op{Kind: "load", A: rapid.IntRange(0, NumBuiltin-1).Draw(t, "leadidx"), K: rapid.IntRange(0, 1).Draw(t, "leadbuf"), Wait: 0})
+			nv++
+		}
+		p.Ops = append(p.Ops, Op{Kind: "store", A: first, K: 0, Slot: p.Slots - 1})
+		usedStore[[2]int{0, p.Slots - 1}] = true
+	}
 	if o.LeadSBurst {
 		// the program starts with a long burst of scalar loads whose XOR is stored
 		k := rapid.IntRange(0, 1).Draw(t, "leadk")
@@ -217,6 +237,10 @@ func GenProgram(t *rapid.T, o GenOpts) *Program {
 		kind := rapid.SampledFrom(kinds).Draw(t, "kind")
 		if o.Comm && wantLDS && nlds == 0 && i == nOps/2 {
 			kind = "lds"
+		}
+		lateWave := o.LateWave && wantLDS && nlds == 0 && i == nOps/2-1 && p.Geo.FullWGs() && wgItems > 64
+		if lateWave {
+			kind = "loop"
 		}
 		op := Op{Kind: kind}
 		if producesValue(kind) && nv-NumBuiltin+extraRegs >= maxValues {
@@ -319,6 +343,12 @@ func GenProgram(t *rapid.T, o GenOpts) *Program {
 			op.A, op.B = ref("a"), ref("b")
 			op.Imm = uint32(rapid.IntRange(0, 5).Draw(t, "trip"))
 			op.WGDep = rapid.Bool().Draw(t, "wgdep")
+			if o.WaveDep && p.Geo.FullWGs() && wgItems > 64 && rapid.Bool().Draw(t, "wavedep") {
+				op.WaveDep = rapid.SampledFrom([]int{8, 24, 48}).Draw(t, "wavedeptrips")
+			}
+			if lateWave {
+				op.WaveDep = rapid.SampledFrom([]int{24, 48, 64}).Draw(t, "latewavetrips")
+			}
 		case "store":
 			op.A = ref("a")
 			op.K = rapid.IntRange(0, 1).Draw(t, "k")
@@ -360,6 +390,11 @@ func GenProgram(t *rapid.T, o GenOpts) *Program {
 			p.PadVGPR = rapid.IntRange(0, room).Draw(t, "padvgpr")
 		}
 		p.PadSGPR = rapid.SampledFrom([]int{0, 8, 16, 40, 64, 70}).Draw(t, "padsgpr")
+	}
+	if o.TrailSLoad && rapid.IntRange(0, 2).Draw(t, "trail") == 0 {
+		// a register that matters to whoever owns the cells next: an output pointer, an input
+		// pointer, a work-group id, the loop counter, a grid size
+		p.TrailSLoad = rapid.SampledFrom([]int{sOut0, sOut0 + 1, sOut0 + 2, sIn0, sWGX, sCtr, sGridX}).Draw(t, "trailreg")
 	}
 	// always leave a trace of the last value
 	if !o.UniqueStores || !usedStore[[2]int{0, 0}] {
